@@ -535,6 +535,180 @@ def pn_run(ctx, cases, N, nums, kind, tol):
 
 
 # ----------------------------------------------------------------------------
+# histories on ONE game object: solve / change payoffs / solve again
+
+def bits(v):
+    return np.ascontiguousarray(np.asarray(v, dtype=float)).tobytes()
+
+
+def solve_all(ctx, g, hist, generic, tag):
+    """Run the four solvers on the game object `g` as it is NOW. Everything is judged against the
+    payoffs read fresh from the object: exact Nash oracle, agreement with a freshly built game
+    with the same payoffs (solvers are functions of the payoffs only), solve twice = same,
+    stored payoffs untouched."""
+    from quantecon.game_theory import (lemke_howson, support_enumeration, vertex_enumeration,
+                                       pure_nash_brute)
+    A = g.players[0].payoff_array.copy()
+    B = g.players[1].payoff_array.copy()
+    m, n = A.shape
+    FA, FB = FM(A), FM(B)
+    fresh = mk_game(A.copy(), B.copy())
+    rep = {"history": hist, "A_now": A.tolist(), "B_now": B.tolist(), "at": tag}
+    snap = (bits(A), bits(B))
+
+    def untouched(what):
+        if (bits(g.players[0].payoff_array), bits(g.players[1].payoff_array)) != snap:
+            ctx.spec_fail("history_payoffs_modified", "%s changed the stored payoffs" % what, rep)
+
+    def prof_bits(L):
+        return [(bits(x), bits(y)) for x, y in L]
+
+    def judge(name, L, complete_ok=True):
+        for x, y in L:
+            why = nash_defect(FA, FB, F(x), F(y))
+            if why:
+                ctx.spec_fail("history_" + name, "%s on a game whose payoffs were changed in place returned a "
+                              "profile that is not an equilibrium of the CURRENT game: %s" % (name, why),
+                              dict(rep, NE=[np.asarray(x).tolist(), np.asarray(y).tolist()]))
+
+    # support / vertex enumeration
+    se1 = support_enumeration(g); untouched("support_enumeration")
+    se2 = support_enumeration(g)
+    sef = support_enumeration(fresh)
+    judge("support_enumeration", se1)
+    if prof_bits(se1) != prof_bits(se2) or prof_bits(se1) != prof_bits(sef):
+        ctx.spec_fail("history_support_enumeration_state", "support_enumeration depends on the object's history "
+                      "(differs from a second call / from a freshly built game with the same payoffs)", rep)
+    ve1 = None
+    if m >= 2 and n >= 2:
+        import scipy.spatial
+        try:
+            ve1 = vertex_enumeration(g); untouched("vertex_enumeration")
+            ve2 = vertex_enumeration(g)
+            vef = vertex_enumeration(fresh)
+            judge("vertex_enumeration", ve1)
+            if prof_bits(ve1) != prof_bits(ve2) or prof_bits(ve1) != prof_bits(vef):
+                ctx.spec_fail("history_vertex_enumeration_state", "vertex_enumeration depends on the object's "
+                              "history (differs from a second call / from a freshly built game with the same "
+                              "payoffs): %d vs %d vs %d profiles" % (len(ve1), len(ve2), len(vef)), rep)
+        except scipy.spatial.QhullError:
+            ctx.count("hist:QhullError")
+            ve1 = None
+    if generic and ve1 is not None:
+        cross_check(ctx, A, B, se1, ve1)
+    # Lemke-Howson
+    for ip in sorted(set([0, m + n - 1, ctx.rng.randrange(m + n)])):
+        for cap in (None, 2):
+            NE, res = lemke_howson(g, init_pivot=ip, capping=cap, max_iter=500, full_output=True)
+            untouched("lemke_howson")
+            NEf, resf = lemke_howson(fresh, init_pivot=ip, capping=cap, max_iter=500, full_output=True)
+            if res.converged:
+                judge("lemke_howson", [NE])
+            if prof_bits([NE]) != prof_bits([NEf]) or (res.converged, res.num_iter, res.init) != \
+                    (resf.converged, resf.num_iter, resf.init):
+                ctx.spec_fail("history_lemke_howson_state", "lemke_howson depends on the object's history", rep)
+    # pure equilibria
+    got = pure_nash_brute(g); untouched("pure_nash_brute")
+    gotf = pure_nash_brute(fresh)
+    if got != gotf or got != pure_nash_brute(g):
+        ctx.spec_fail("history_pure_nash_state", "pure_nash_brute depends on the object's history", rep)
+    d, ft = Fraction(1, 10 ** 12), Fraction(1e-8)
+    gs = set(tuple(int(t) for t in a) for a in got)
+    for i in range(m):
+        for j in range(n):
+            gain = max(max(FA[k][j] for k in range(m)) - FA[i][j], max(FB[k][i] for k in range(n)) - FB[j][i])
+            if (gain <= ft - d and (i, j) not in gs) or (gain > ft + d and (i, j) in gs):
+                ctx.spec_fail("history_pure_nash", "pure_nash_brute wrong for the CURRENT payoffs at %s" % ((i, j),),
+                              dict(rep, got=sorted(gs)))
+    ctx.count("hist:solves")
+
+
+def history_run(ctx, count):
+    from quantecon.game_theory import NormalFormGame
+    rng = ctx.rng
+    for h in range(count):
+        generic = rng.random() < 0.6
+        val = (lambda: rng.gauss(0, 1)) if generic else (lambda: float(rng.randint(-2, 3)))
+        m, n = rng.randint(2, 4), rng.randint(2, 4)
+        hist = []
+        how = "stengel" if h == 0 else rng.choice(["arrays", "staged", "delete", "stengel"])
+        if how == "stengel":
+            m, n, generic = 3, 2, False
+            A0 = np.array([[3., 3.], [2., 5.], [0., 6.]])
+            B0 = np.array([[3., 2., 3.], [2., 6., 1.]])
+            g = mk_game(A0, B0)
+            hist.append(["arrays", A0.tolist(), B0.tolist()])
+        elif how == "arrays":
+            A0 = np.array([[val() for _ in range(n)] for _ in range(m)])
+            B0 = np.array([[val() for _ in range(m)] for _ in range(n)])
+            g = mk_game(A0, B0)
+            hist.append(["arrays", A0.tolist(), B0.tolist()])
+        elif how == "staged":
+            # a game created from the numbers of actions (all payoffs 0), filled in two stages
+            g = NormalFormGame((m, n))
+            hist.append(["shape", m, n])
+            cells = [(i, j) for i in range(m) for j in range(n)]
+            rng.shuffle(cells)
+            half = len(cells) // 2
+            for (i, j) in cells[:half]:
+                v = (val(), val())
+                g[i, j] = v
+                hist.append(["setitem", i, j, v[0], v[1]])
+            solve_all(ctx, g, list(hist), False, "half-filled")
+            for (i, j) in cells[half:]:
+                v = (val(), val())
+                g[i, j] = v
+                hist.append(["setitem", i, j, v[0], v[1]])
+        else:
+            # the result of delete_action on a solved, larger game; the parent must keep its answers
+            from quantecon.game_theory import support_enumeration
+            A0 = np.array([[val() for _ in range(n + 1)] for _ in range(m + 1)])
+            B0 = np.array([[val() for _ in range(m + 1)] for _ in range(n + 1)])
+            parent = mk_game(A0, B0)
+            hist.append(["arrays", A0.tolist(), B0.tolist()])
+            solve_all(ctx, parent, list(hist), generic, "parent")
+            before = [(bits(x), bits(y)) for x, y in support_enumeration(parent)]
+            a0, a1 = rng.randrange(m + 1), rng.randrange(n + 1)
+            g = parent.delete_action(0, a0).delete_action(1, a1)
+            hist.append(["delete_action", 0, a0, 1, a1])
+            solve_all(ctx, g, list(hist), generic, "child")
+            if [(bits(x), bits(y)) for x, y in support_enumeration(parent)] != before or \
+                    bits(parent.players[0].payoff_array) != bits(A0):
+                ctx.spec_fail("history_delete_action_parent", "delete_action / solving the child changed the parent",
+                              {"history": hist})
+        ctx.count("hist:" + how)
+        solve_all(ctx, g, list(hist), generic and how != "stengel", "built")
+        for step in range(rng.randint(1, 3)):
+            kind = rng.choice(["setitem", "inplace0", "inplace1", "setitem-many"]) if how != "stengel" or step else "setitem"
+            if how == "stengel" and step == 0:
+                g[0, 0] = (1.0, 3.0)
+                hist.append(["setitem", 0, 0, 1.0, 3.0])
+            elif kind == "setitem":
+                i, j = rng.randrange(m), rng.randrange(n)
+                v = (val(), val())
+                g[i, j] = v
+                hist.append(["setitem", i, j, v[0], v[1]])
+            elif kind == "setitem-many":
+                for _ in range(rng.randint(2, m * n)):
+                    i, j = rng.randrange(m), rng.randrange(n)
+                    v = (val(), val())
+                    g[i, j] = v
+                    hist.append(["setitem", i, j, v[0], v[1]])
+            elif kind == "inplace0":
+                i, j = rng.randrange(m), rng.randrange(n)
+                v = val()
+                g.players[0].payoff_array[i, j] = v
+                hist.append(["players[0].payoff_array", i, j, v])
+            else:
+                i, j = rng.randrange(m), rng.randrange(n)
+                v = val()
+                g.players[1].payoff_array[j, i] = v
+                hist.append(["players[1].payoff_array", j, i, v])
+            ctx.count("hist:mutation:" + kind)
+            solve_all(ctx, g, list(hist), generic and how != "stengel", "after-mutation-%d" % (step + 1))
+
+
+# ----------------------------------------------------------------------------
 
 def run(ctx):
     cases = []
@@ -548,7 +722,9 @@ def run(ctx):
         "system is singular / has a zero weight / has an exact payoff tie the code's yield is decided by rounding and "
         "is compared only through the exact Nash oracle (counted as fragile pairs)",
         "vertex_enumeration: Qhull's (equations, simplices) are inputs of the model",
-        "rounding envelope 1e-9 on probabilities between the exact model and the code's doubles"]
+        "rounding envelope 1e-9 on probabilities between the exact model and the code's doubles",
+        "the model's solvers are pure functions of the payoff matrices; that the code's are too (no state kept on "
+        "the game object across calls or payoff changes) is checked by the solve/mutate/solve histories"]
 
     # corpus first: fixed games that once needed attention (degenerate read-outs, many ties)
     import json, os
@@ -590,6 +766,9 @@ def run(ctx):
                 cross_check(ctx, A, B, se, ve)
 
     indiff_cases(ctx, cases, ctx.n(600, 6000))
+
+    # solve / mutate / solve histories on one game object
+    history_run(ctx, ctx.n(30, 300))
 
     # pure equilibria
     for _ in range(ctx.n(150, 3000)):
